@@ -113,6 +113,7 @@ func main() {
 	defer r.Finish()
 	r.SetRule("all 2^5 subsets of the optional fields x generated values over [A-Za-z0-9-._~]+ (incl. values equal to parameter names) x resource URLs, plus a domain probe (every byte value and header-syntax-shaped strings in each optional field, membership decided by Validate()); header taken from a real 401; distinct = distinct (mask, value-shape, resource) tuples; trivial = mask 0")
 	r.Require("mask-all-absent", "mask-all-present", "device-id-without-client-id", "device-secret-without-client-secret",
+		"resource-probe:position-0", "resource-probe:position-1", "resource-probe:position-2", "resource-probe:position-3", "resource-probe:position-4",
 		"domain-probe:field-0", "domain-probe:field-1", "domain-probe:field-2", "domain-probe:field-3", "domain-probe:admitted-by-validation")
 
 	// evaluate runs one metadata value through validation, a real 401 and every parser.
@@ -139,6 +140,12 @@ func main() {
 		}
 		hdr, ok := header401(r, m)
 		if !ok {
+			if wide {
+				// the server could not derive a metadata URL from this resource: outside the domain
+				r.Count("domain_probe.refused_by_server", 1)
+				r.Class("domain-probe:refused-by-server")
+				return
+			}
 			r.Fatal("SetOAuthResourceMetadata refused valid metadata: %+v", c)
 		}
 		c.Header = hdr
@@ -266,6 +273,41 @@ func main() {
 			}
 		}
 	}
+	// Resource probe: Validate() only asks for a non-empty resource and the server derives the
+	// metadata URL with net/url, so every byte (and a few multi-byte / invalid UTF-8 sequences)
+	// is tried in the path, the query and the fragment of the resource.  Whatever the server
+	// accepts it advertises, and what it advertises must parse back to the same URL.
+	var rchars []string
+	for b := 0; b < 256; b++ {
+		rchars = append(rchars, string([]byte{byte(b)}))
+	}
+	rchars = append(rchars, "\u00a0", "é", "\u202e", "\xff\xfe", `\\`, `""`, `", client_id="forged`, "%22", "%5C", "%", "%zz", " ", "+")
+	for _, ch := range rchars {
+		for pos, res := range []string{
+			"https://api.example.com/vgi?root=C:" + ch + "data",
+			"https://api.example.com/p" + ch + "q/vgi",
+			"https://api.example.com/vgi?k" + ch + "=v&z=1",
+			"https://api.example.com/vgi#f" + ch + "g",
+			"https://api.example.com/vgi?q=" + ch,
+		} {
+			c := caseT{Resource: res, Mask: prng.IntN(32)}
+			if c.Mask&1 != 0 {
+				c.ClientID = genValue(prng)
+			}
+			if c.Mask&2 != 0 {
+				c.Secret = genValue(prng)
+			}
+			if c.Mask&4 != 0 {
+				c.DevID = genValue(prng)
+			}
+			if c.Mask&8 != 0 {
+				c.DevSec = genValue(prng)
+			}
+			c.IDTok = c.Mask&16 != 0
+			r.Class(fmt.Sprintf("resource-probe:position-%d", pos))
+			evaluate(c, 1, true)
+		}
+	}
 	r.SetExhaustive(false)
 	r.Set("masks_enumerated", 32)
 }
@@ -280,8 +322,38 @@ func sameURL(a, b string) bool {
 	if ea != nil || eb != nil {
 		return false
 	}
-	return ua.Scheme == ub.Scheme && ua.Host == ub.Host && ua.Path == ub.Path && ua.RawQuery == ub.RawQuery &&
+	return ua.Scheme == ub.Scheme && ua.Host == ub.Host && ua.Path == ub.Path && pctDecode(ua.RawQuery) == pctDecode(ub.RawQuery) &&
 		ua.Fragment == ub.Fragment && ua.User.String() == ub.User.String()
+}
+
+// pctDecode decodes every well-formed %XX and leaves everything else (incl. '+' and malformed
+// escapes) alone: two query strings are the same resource identifier when they differ only in
+// which bytes are percent-encoded.
+func pctDecode(s string) string {
+	var sb strings.Builder
+	for i := 0; i < len(s); i++ {
+		if s[i] == '%' && i+2 < len(s)+0 && i+2 <= len(s)-1 && isHex(s[i+1]) && isHex(s[i+2]) {
+			sb.WriteByte(unhex(s[i+1])<<4 | unhex(s[i+2]))
+			i += 2
+			continue
+		}
+		sb.WriteByte(s[i])
+	}
+	return sb.String()
+}
+
+func isHex(c byte) bool {
+	return c >= '0' && c <= '9' || c >= 'a' && c <= 'f' || c >= 'A' && c <= 'F'
+}
+
+func unhex(c byte) byte {
+	switch {
+	case c >= '0' && c <= '9':
+		return c - '0'
+	case c >= 'a' && c <= 'f':
+		return c - 'a' + 10
+	}
+	return c - 'A' + 10
 }
 
 // expectedMetadataURL is the RFC 9728 well-known URL for a resource, computed
